@@ -47,8 +47,6 @@ Section ScanProofs.
   Qed.
 
   (** ** one file of a round *)
-  (** what [visit_file] does to the analysed set (nothing), the processed set and the set of
-      new modules; [tg] = the resolved targets of the file in the state before *)
   Definition visit_targets (importer_plugin : bool) (x : ist) (l : list (path * bool)) : ist :=
     fold_left (fun (x : ist) (tb : path * bool) =>
                  let '(t, hands_on) := tb in
@@ -56,25 +54,48 @@ Section ScanProofs.
                  let do_mark := importer_plugin && hands_on && negb (mem_path t (ss_plugin st)) in
                  let st' := if do_mark then mark t st else st in
                  let re := if do_mark && mem_path t (ss_cached st) then add_path t (i_re x) else i_re x in
+                 let rev := if true && do_mark && mem_path t (i_proc x) then add_path t (i_rev x) else i_rev x in
                  let new := if negb (mem_path t (i_proc x)) && negb (mem_path t (ss_cached st)) then add_path t (i_new x) else i_new x in
-                 mk_ist st' (i_proc x) new re) l x.
+                 mk_ist st' (i_proc x) new re rev) l x.
 
-  Lemma visit_targets_spec b l : forall x,
-    let x' := visit_targets b x l in
-    ss_cached (i_st x') = ss_cached (i_st x)
-    /\ i_proc x' = i_proc x
-    /\ (forall q, In q (i_new x') <-> In q (i_new x) \/ (In q (map fst l) /\ ~ In q (i_proc x) /\ ~ In q (ss_cached (i_st x))))
-    /\ (forall q, In q (ss_plugin (i_st x')) ->
-                  In q (ss_plugin (i_st x)) \/ (b = true /\ In (q, true) l)).
+  Record vt_ok (b : bool) (l : list (path * bool)) (x x' : ist) : Prop := {
+    vt_cached : ss_cached (i_st x') = ss_cached (i_st x);
+    vt_proc : i_proc x' = i_proc x;
+    vt_new : forall q, In q (i_new x') <-> In q (i_new x) \/ (In q (map fst l) /\ ~ In q (i_proc x) /\ ~ In q (ss_cached (i_st x)));
+    vt_plugin_sound : forall q, In q (ss_plugin (i_st x')) -> In q (ss_plugin (i_st x)) \/ (b = true /\ In (q, true) l);
+    vt_plugin_mono : forall q, In q (ss_plugin (i_st x)) -> In q (ss_plugin (i_st x'));
+    vt_handed : b = true -> forall q, In (q, true) l -> In q (ss_plugin (i_st x'));
+    vt_rev_mono : forall q, In q (i_rev x) -> In q (i_rev x');
+    vt_rev_sound : forall q, In q (i_rev x') -> In q (i_rev x) \/ (In q (i_proc x) /\ In q (ss_plugin (i_st x')) /\ ~ In q (ss_plugin (i_st x)));
+    vt_rev_complete : forall q, In q (i_proc x) -> In q (ss_plugin (i_st x')) -> ~ In q (ss_plugin (i_st x)) -> In q (i_rev x') }.
+
+  Lemma visit_targets_spec b l : forall x, vt_ok b l x (visit_targets b x l).
   Proof.
-    induction l as [|[t h] l IH]; intros x; cbn [visit_targets fold_left map].
-    - split; [reflexivity|]. split; [reflexivity|]. split; [|tauto]. intros q. split; [tauto|]. intros [H|[[] _]]. exact H.
-    - set (y := mk_ist _ _ _ _). specialize (IH y). cbn zeta in IH. destruct IH as [H1 [H2 [H3 H4]]].
-      fold (visit_targets b y l).
-      assert (Ec : ss_cached (i_st y) = ss_cached (i_st x)).
-      { unfold y. cbn [i_st]. destruct (b && h && negb (mem_path t (ss_plugin (i_st x)))); reflexivity. }
+    induction l as [|[t h] l IH]; intros x; cbn [visit_targets fold_left].
+    - constructor; try reflexivity; try tauto.
+      + intros q. cbn [map In]. tauto.
+      + intros _ q [].
+    - set (y := mk_ist _ _ _ _ _). specialize (IH y). fold (visit_targets b y l).
+      destruct IH as [H1 H2 H3 H4 H5 H6 H7 H8 H9].
+      set (dm := b && h && negb (mem_path t (ss_plugin (i_st x)))) in *.
+      assert (Ec : ss_cached (i_st y) = ss_cached (i_st x)) by (unfold y; cbn [i_st]; destruct dm; reflexivity).
       assert (Ep : i_proc y = i_proc x) by reflexivity.
-      split; [now rewrite H1|]. split; [now rewrite H2|]. split.
+      assert (Ypl : forall q, In q (ss_plugin (i_st y)) <-> In q (ss_plugin (i_st x)) \/ (dm = true /\ q = t)).
+      { intros q. unfold y. cbn [i_st]. destruct dm.
+        - unfold mark. cbn [ss_plugin]. rewrite add_path_in. split; [intros [->|H]; auto|intros [H|[_ ->]]; auto].
+        - split; [auto|intros [H|[H _]]; [exact H|discriminate]]. }
+      assert (Yrev : forall q, In q (i_rev y) <-> In q (i_rev x) \/ (dm = true /\ q = t /\ In t (i_proc x))).
+      { intros q. unfold y. cbn [i_rev andb]. destruct dm; cbn [andb].
+        - destruct (mem_path t (i_proc x)) eqn:E.
+          + apply mem_path_in in E. rewrite add_path_in. split; [intros [->|H]; auto|intros [H|[_ [-> _]]]; auto].
+          + split; [auto|]. intros [H|[_ [_ H]]]; [exact H|]. apply mem_path_in in H. congruence.
+        - split; [auto|intros [H|[H _]]; [exact H|discriminate]]. }
+      assert (Dm : dm = true -> b = true /\ h = true /\ ~ In t (ss_plugin (i_st x))).
+      { unfold dm. intros H. apply andb_prop in H as [H H3']. apply andb_prop in H as [Hb Hh].
+        apply negb_true_iff in H3'. repeat split; try assumption. intros X. apply mem_path_in in X. congruence. }
+      constructor.
+      + now rewrite H1.
+      + now rewrite H2.
       + intros q. rewrite H3, Ec, Ep. unfold y. cbn [i_new fst In map].
         destruct (negb (mem_path t (i_proc x)) && negb (mem_path t (ss_cached (i_st x)))) eqn:E.
         * apply andb_prop in E as [E1 E2]. apply negb_true_iff in E1, E2.
@@ -88,62 +109,103 @@ Section ScanProofs.
           -- intros [H|[[<-|H] [Hn1 Hn2]]]; [now left| |right; tauto].
              exfalso. apply andb_false_iff in E as [E|E]; apply negb_false_iff in E; apply mem_path_in in E; tauto.
       + intros q Hq. apply H4 in Hq as [Hq|[Hb Hq]]; [|right; split; [exact Hb|now right]].
-        unfold y in Hq. cbn [i_st] in Hq.
-        destruct (b && h && negb (mem_path t (ss_plugin (i_st x)))) eqn:E; [|now left].
-        unfold mark in Hq. cbn [ss_plugin] in Hq. apply add_path_in in Hq as [->|Hq]; [|now left].
-        apply andb_prop in E as [E _]. apply andb_prop in E as [E1 E2]. right. subst. split; [reflexivity|now left].
+        apply Ypl in Hq as [Hq|[Hd ->]]; [now left|]. destruct (Dm Hd) as [Hb [Hh _]]. subst. right. split; [reflexivity|now left].
+      + intros q Hq. apply H5. apply Ypl. now left.
+      + intros Hb q [Hq|Hq]; [|now apply H6].
+        injection Hq as -> ->. apply H5. apply Ypl.
+        destruct (mem_path q (ss_plugin (i_st x))) eqn:E; [apply mem_path_in in E; now left|].
+        right. split; [|reflexivity]. unfold dm. rewrite Hb. try rewrite E. reflexivity.
+      + intros q Hq. apply H7. apply Yrev. now left.
+      + intros q Hq. apply H8 in Hq as [Hq|[Hq1 [Hq2 Hq3]]].
+        * apply Yrev in Hq as [Hq|[Hd [-> Hq]]]; [now left|]. right. destruct (Dm Hd) as [_ [_ Hn]].
+          split; [exact Hq|]. split; [|exact Hn]. apply H5. apply Ypl. auto.
+        * right. rewrite Ep in Hq1. split; [exact Hq1|]. split; [exact Hq2|]. intros X. apply Hq3. apply Ypl. now left.
+      + intros q Hq1 Hq2 Hq3.
+        destruct (mem_path q (ss_plugin (i_st y))) eqn:E.
+        * apply mem_path_in in E. apply Ypl in E as [E|[Hd ->]]; [contradiction|]. apply H7. apply Yrev. right. auto.
+        * apply H9; [now rewrite Ep|exact Hq2|]. intros X. apply mem_path_in in X. congruence.
   Qed.
 
   Lemma visit_file_unfold x F :
-    visit_file x F =
+    visit_file true x F =
     if mem_path F (i_proc x) then x
-    else visit_targets (mem_path F (ss_plugin (i_st x))) (mk_ist (i_st x) (F :: i_proc x) (i_new x) (i_re x)) (targets (i_st x) F).
+    else visit_targets (mem_path F (ss_plugin (i_st x))) (mk_ist (i_st x) (F :: i_proc x) (i_new x) (i_re x) (i_rev x)) (targets (i_st x) F).
   Proof. reflexivity. Qed.
 
-  (** ** one round and all rounds, over a successor function [tg] that does not depend on
-      the scan state (discharged below: resolution only looks at the tree) *)
+  (** ** one round and all rounds, over a successor function [tgf] (with the hand-on flags)
+      that does not depend on the scan state (discharged below) *)
   Section Rounds.
-    Variable tg : path -> list path.
-    Hypothesis tg_is_targets :
-      forall st F, (forall q, In q (ss_cached st) -> file_exists q = true) -> map fst (targets st F) = tg F.
-    Hypothesis tg_exist : forall F q, In q (tg F) -> file_exists q = true.
+    Variable tgf : path -> list (path * bool).
+    Hypothesis tgf_is_targets : forall st F, targets st F = tgf F.
+    Hypothesis tgf_exist : forall F q b, In (q, b) (tgf F) -> file_exists q = true.
+    Definition tg (F : path) : list path := map fst (tgf F).
+    Lemma tg_exist F q : In q (tg F) -> file_exists q = true.
+    Proof. unfold tg. intros H. apply in_map_iff in H as [[t b] [<- H]]. eapply tgf_exist; eauto. Qed.
 
-    Record round_ok (C : list path) (x0 x : ist) (done_ : list path) : Prop := {
-      ro_cached : ss_cached (i_st x) = C;
-      ro_proc : forall q, In q (i_proc x) <-> In q (i_proc x0) \/ In q done_;
-      ro_new_sound : forall q, In q (i_new x) -> In q (i_new x0) \/ exists F, In F done_ /\ In q (tg F);
-      ro_expanded : forall F, In F done_ -> ~ In F (i_proc x0) ->
-                              forall q, In q (tg F) -> In q C \/ In q (i_proc x) \/ In q (i_new x) }.
+    Definition handed (st : sst) (F : path) : Prop := forall T, In (T, true) (tgf F) -> In T (ss_plugin st).
 
-    Lemma round_fold l : forall x0,
-      (forall q, In q (ss_cached (i_st x0)) -> file_exists q = true) ->
-      round_ok (ss_cached (i_st x0)) x0 (fold_left visit_file l x0) l.
+    Record round_ok (st0 : sst) (proc0 : list path) (x : ist) (done_ : list path) : Prop := {
+      ro_cached : ss_cached (i_st x) = ss_cached st0;
+      ro_proc : forall q, In q (i_proc x) <-> In q proc0 \/ In q done_;
+      ro_new_sound : forall q, In q (i_new x) -> exists F, In F done_ /\ In q (tg F);
+      ro_new_fresh : forall q, In q (i_new x) -> ~ In q (ss_cached st0);
+      ro_expanded : forall F, In F done_ -> ~ In F proc0 ->
+                              forall q, In q (tg F) -> In q (ss_cached st0) \/ In q (i_proc x) \/ In q (i_new x);
+      ro_plugin_mono : forall q, In q (ss_plugin st0) -> In q (ss_plugin (i_st x));
+      ro_plugin_closed : forall (Pinv : path -> Prop),
+          (forall q, In q (ss_plugin st0) -> Pinv q) ->
+          (forall F q, Pinv F -> In (q, true) (tgf F) -> Pinv q) ->
+          forall q, In q (ss_plugin (i_st x)) -> Pinv q;
+      ro_plugin_target : forall q, In q (ss_plugin (i_st x)) ->
+                                   In q (ss_plugin st0) \/ exists F, In F done_ /\ ~ In F proc0 /\ In (q, true) (tgf F);
+      ro_rev_proc : forall q, In q (i_rev x) -> In q (i_proc x) /\ In q (ss_plugin (i_st x)) /\ ~ In q (ss_plugin st0);
+      ro_handed : (forall F, In F proc0 -> In F (ss_plugin st0) -> handed st0 F) ->
+                  forall F, In F (i_proc x) -> In F (ss_plugin (i_st x)) -> In F (i_rev x) \/ handed (i_st x) F }.
+
+    Lemma handed_mono st st' F : (forall q, In q (ss_plugin st) -> In q (ss_plugin st')) -> handed st F -> handed st' F.
+    Proof. intros Hm H T HT. apply Hm. now apply H. Qed.
+
+    Lemma round_fold l : forall st0 proc0 re0,
+      round_ok st0 proc0 (fold_left (visit_file true) l (mk_ist st0 proc0 [] re0 [])) l.
     Proof.
-      induction l as [|F l IH] using rev_ind; intros x0 Hex.
-      - cbn [fold_left]. constructor; [reflexivity|intros q; cbn; tauto|intros q H; now left|intros G []].
-      - rewrite fold_left_app. cbn [fold_left]. specialize (IH x0 Hex). set (x := fold_left visit_file l x0) in *.
-        destruct IH as [Hc Hp Hs He].
+      induction l as [|F l IH] using rev_ind; intros st0 proc0 re0.
+      - cbn [fold_left]. constructor; cbn [i_st i_proc i_new i_rev].
+        + reflexivity.
+        + intros q; cbn; tauto.
+        + intros q [].
+        + intros q [].
+        + intros G [].
+        + intros q H; exact H.
+        + intros Pinv H _ q Hq. now apply H.
+        + intros q H. now left.
+        + intros q [].
+        + intros H F HF Hp. right. now apply H.
+      - rewrite fold_left_app. cbn [fold_left]. specialize (IH st0 proc0 re0).
+        set (x := fold_left (visit_file true) l (mk_ist st0 proc0 [] re0 [])) in *.
+        destruct IH as [Hc Hp Hs Hfr He Hpm Hpc Hpt Hrp Hh].
         rewrite visit_file_unfold. destruct (mem_path F (i_proc x)) eqn:EF.
         + apply mem_path_in in EF. constructor; try assumption.
           * intros q. rewrite Hp, in_app_iff. cbn [In]. split; [tauto|]. intros [H|[H|[<-|[]]]]; auto.
             apply Hp in EF. exact EF.
-          * intros q Hq. apply Hs in Hq as [Hq|[G [HG Hq]]]; [now left|]. right. exists G. rewrite in_app_iff. auto.
+          * intros q Hq. apply Hs in Hq as [G [HG Hq]]. exists G. rewrite in_app_iff. auto.
           * intros G HG Hn q Hq. apply in_app_iff in HG as [HG|[<-|[]]]; [now apply (He G)|].
             apply Hp in EF as [EF|EF]; [contradiction|]. now apply (He F).
+          * intros q Hq. apply Hpt in Hq as [Hq|[G [HG [Hn Hq]]]]; [now left|]. right. exists G. rewrite in_app_iff. auto.
         + assert (NF : ~ In F (i_proc x)) by (intros X; apply mem_path_in in X; congruence).
-          set (y := mk_ist (i_st x) (F :: i_proc x) (i_new x) (i_re x)).
-          pose proof (visit_targets_spec (mem_path F (ss_plugin (i_st x))) (targets (i_st x) F) y) as [V1 [V2 [V3 _]]].
-          cbn zeta in V1, V2, V3. cbn [y i_st i_proc i_new] in V1, V2, V3.
-          assert (Etg : map fst (targets (i_st x) F) = tg F).
-          { apply tg_is_targets. rewrite Hc. exact Hex. }
-          rewrite Etg in V3.
+          assert (NF0 : ~ In F proc0) by (intros X; apply NF; apply Hp; now left).
+          set (bF := mem_path F (ss_plugin (i_st x))).
+          set (y := mk_ist (i_st x) (F :: i_proc x) (i_new x) (i_re x) (i_rev x)).
+          pose proof (visit_targets_spec bF (targets (i_st x) F) y) as V. rewrite tgf_is_targets in V.
+          rewrite tgf_is_targets. set (x' := visit_targets bF y (tgf F)) in *.
+          destruct V as [V1 V2 V3 V4 V5 V6 V7 V8 V9]. cbn [y i_st i_proc i_new i_rev] in V1, V2, V3, V4, V5, V6, V7, V8, V9.
           constructor.
           * now rewrite V1.
           * intros q. rewrite V2. cbn [In]. rewrite Hp, in_app_iff. cbn [In]. split; [intros [<-|[H|H]]; auto|].
             intros [H|[H|[<-|[]]]]; auto.
           * intros q Hq. apply V3 in Hq as [Hq|[Hq _]].
-            -- apply Hs in Hq as [Hq|[G [HG Hq]]]; [now left|]. right. exists G. rewrite in_app_iff. auto.
-            -- right. exists F. rewrite in_app_iff. cbn [In]. auto.
+            -- apply Hs in Hq as [G [HG Hq]]. exists G. rewrite in_app_iff. auto.
+            -- exists F. rewrite in_app_iff. cbn [In]. auto.
+          * intros q Hq. apply V3 in Hq as [Hq|[_ [_ Hq]]]; [now apply Hfr|]. now rewrite <- Hc.
           * intros G HG Hn q Hq. rewrite V2. apply in_app_iff in HG as [HG|[<-|[]]].
             -- destruct (He G HG Hn q Hq) as [H|[H|H]]; [now left|right; left; now right|].
                right. right. apply V3. now left.
@@ -151,6 +213,24 @@ Section ScanProofs.
                destruct (mem_path q (ss_cached (i_st x))) eqn:E2; [apply mem_path_in in E2; left; now rewrite <- Hc|].
                right. right. apply V3. right. split; [exact Hq|].
                split; intros X; apply mem_path_in in X; congruence.
+          * intros q Hq. apply V5. now apply Hpm.
+          * intros Pinv H0 Hstep q Hq. apply V4 in Hq as [Hq|[Hb Hq]]; [now apply (Hpc Pinv)|].
+            eapply Hstep; [|exact Hq]. apply (Hpc Pinv H0 Hstep). unfold bF in Hb. now apply mem_path_in in Hb.
+          * intros q Hq. apply V4 in Hq as [Hq|[Hb Hq]].
+            -- apply Hpt in Hq as [Hq|[G [HG [Hn Hq]]]]; [now left|]. right. exists G. rewrite in_app_iff. auto.
+            -- right. exists F. rewrite in_app_iff. cbn [In]. auto.
+          * intros q Hq. apply V8 in Hq as [Hq|[Hq1 [Hq2 Hq3]]].
+            -- apply Hrp in Hq as [Hq1 [Hq2 Hq3]]. rewrite V2. split; [now right|]. split; [now apply V5|exact Hq3].
+            -- rewrite V2. split; [exact Hq1|]. split; [exact Hq2|]. intros X. apply Hq3. now apply Hpm.
+          * intros H0 G HG HGp. rewrite V2 in HG. destruct HG as [<-|HG].
+            -- destruct bF eqn:EbF.
+               ++ right. intros T HT. now apply V6.
+               ++ exfalso. apply V4 in HGp as [HGp|[X _]]; [|discriminate].
+                  unfold bF in EbF. apply mem_path_in in HGp. congruence.
+            -- destruct (mem_path G (ss_plugin (i_st x))) eqn:EG.
+               ++ apply mem_path_in in EG. destruct (Hh H0 G HG EG) as [Hr|Hd]; [left; now apply V7|].
+                  right. eapply handed_mono; [|exact Hd]. exact V5.
+               ++ left. apply V9; [now right|exact HGp|]. intros X. apply mem_path_in in X. congruence.
     Qed.
 
     Variable seeds : list path.
@@ -158,85 +238,228 @@ Section ScanProofs.
     | rt_seed F : In F seeds -> reach_tg F
     | rt_step F T : reach_tg F -> In T (tg F) -> reach_tg T.
 
+    Variable P0 : list path.                     (* the plugin files before phase 4 *)
+    Inductive preach : path -> Prop :=
+    | pr_base F : In F P0 -> preach F
+    | pr_step F T : preach F -> In (T, true) (tgf F) -> preach T.
+
     Record inv (st : sst) (proc to_check : list path) : Prop := {
       i_exist : forall q, In q (ss_cached st) -> file_exists q = true;
       i_seeds : forall q, In q seeds -> In q (ss_cached st);
       i_sound : forall q, In q (ss_cached st) \/ In q to_check \/ In q proc -> reach_tg q;
       i_frontier : forall q, In q (ss_cached st) -> In q proc \/ In q to_check;
       i_expanded : forall F, In F proc -> forall q, In q (tg F) -> In q (ss_cached st) \/ In q proc \/ In q to_check;
-      i_done : forall q, In q proc \/ In q to_check -> file_exists q = true -> In q (ss_cached st) }.
+      i_done : forall q, In q proc \/ In q to_check -> file_exists q = true -> In q (ss_cached st);
+      i_p0 : forall q, In q P0 -> In q (ss_plugin st);
+      i_psound : forall q, In q (ss_plugin st) -> preach q;
+      i_pcached : forall q, In q (ss_plugin st) -> In q (ss_cached st);
+      i_handed : forall F, In F proc -> In F (ss_plugin st) -> handed st F }.
+
+    Lemma fold_analyse_plugin' l : forall st, ss_plugin (fold_left (fun st p => analyse p st) l st) = ss_plugin st.
+    Proof. induction l as [|p l IH]; intros st; [reflexivity|]. cbn [fold_left]. now rewrite IH, analyse_plugin. Qed.
 
     Lemma round_inv st proc to_check re :
       inv st proc to_check ->
-      let x := fold_left visit_file to_check (mk_ist st proc [] re) in
-      inv (fold_left (fun st p => analyse p st) (i_new x) (i_st x)) (i_proc x) (i_new x).
+      let x := fold_left (visit_file true) to_check (mk_ist st proc [] re []) in
+      inv (fold_left (fun st p => analyse p st) (i_new x) (i_st x))
+          (filter (fun p => negb (mem_path p (i_rev x))) (i_proc x)) (i_new x ++ i_rev x).
     Proof.
-      intros [He Hsd Hs Hf Hx Hd]. cbn zeta.
-      pose proof (round_fold to_check (mk_ist st proc [] re) He) as R.
-      set (x := fold_left visit_file to_check (mk_ist st proc [] re)) in *.
-      cbn [i_st i_proc i_new] in R. destruct R as [Rc Rp Rs Re].
+      intros [He Hsd Hs Hf Hx Hd Hp0 Hps Hpc Hh]. cbn zeta.
+      pose proof (round_fold to_check st proc re) as R.
+      set (x := fold_left (visit_file true) to_check (mk_ist st proc [] re [])) in *.
+      destruct R as [Rc Rp Rs Rfr Re Rpm Rpcl Rpt Rrp Rh].
+      assert (InP : forall q, In q (filter (fun p => negb (mem_path p (i_rev x))) (i_proc x)) <-> In q (i_proc x) /\ ~ In q (i_rev x)).
+      { intros q. rewrite filter_In. split; intros [H1 H2]; split; try exact H1.
+        - apply negb_true_iff in H2. intros X. apply mem_path_in in X. congruence.
+        - apply negb_true_iff. destruct (mem_path q (i_rev x)) eqn:E; [apply mem_path_in in E; contradiction|reflexivity]. }
+      assert (Split : forall q, In q (i_proc x) -> In q (filter (fun p => negb (mem_path p (i_rev x))) (i_proc x)) \/ In q (i_new x ++ i_rev x)).
+      { intros q Hq. destruct (mem_path q (i_rev x)) eqn:E.
+        - apply mem_path_in in E. right. apply in_or_app. now right.
+        - left. apply InP. split; [exact Hq|]. intros X. apply mem_path_in in X. congruence. }
+      assert (Hnew : forall q, In q (i_new x) -> reach_tg q).
+      { intros q Hq. apply Rs in Hq as [F [HF Hq]]. eapply rt_step; [|exact Hq]. apply Hs. auto. }
       constructor.
       - intros q Hq. apply fold_analyse_cached in Hq as [Hq|[_ Hq]]; [|exact Hq]. rewrite Rc in Hq. now apply He.
       - intros q Hq. apply fold_analyse_cached. left. rewrite Rc. now apply Hsd.
-      - assert (Hnew : forall q, In q (i_new x) -> reach_tg q).
-        { intros q Hq. apply Rs in Hq as [[]|[F [HF Hq]]]. eapply rt_step; [|exact Hq]. apply Hs. auto. }
-        intros q [Hq|[Hq|Hq]].
+      - intros q [Hq|[Hq|Hq]].
         + apply fold_analyse_cached in Hq as [Hq|[Hq _]]; [rewrite Rc in Hq; apply Hs; now left|now apply Hnew].
-        + now apply Hnew.
-        + apply Rp in Hq as [Hq|Hq]; apply Hs; auto.
-      - intros q Hq. apply fold_analyse_cached in Hq as [Hq|[Hq _]]; [|now right].
-        rewrite Rc in Hq. apply Hf in Hq as [Hq|Hq]; left; apply Rp; auto.
-      - intros F HF q Hq.
-        assert (Old : In F proc -> In q (ss_cached (fold_left (fun st p => analyse p st) (i_new x) (i_st x))) \/ In q (i_proc x) \/ In q (i_new x)).
+        + apply in_app_iff in Hq as [Hq|Hq]; [now apply Hnew|].
+          apply Rrp in Hq as [Hq _]. apply Rp in Hq as [Hq|Hq]; apply Hs; auto.
+        + apply InP in Hq as [Hq _]. apply Rp in Hq as [Hq|Hq]; apply Hs; auto.
+      - intros q Hq. apply fold_analyse_cached in Hq as [Hq|[Hq _]]; [|right; apply in_or_app; now left].
+        rewrite Rc in Hq. apply Split. apply Rp. apply Hf in Hq as [Hq|Hq]; auto.
+      - intros F HF q Hq. apply InP in HF as [HF _].
+        assert (Old : In F proc -> In q (ss_cached (fold_left (fun st p => analyse p st) (i_new x) (i_st x)))
+                                   \/ In q (filter (fun p => negb (mem_path p (i_rev x))) (i_proc x)) \/ In q (i_new x ++ i_rev x)).
         { intros Hin. destruct (Hx F Hin q Hq) as [H|[H|H]].
           - left. apply fold_analyse_cached. left. now rewrite Rc.
-          - right. left. apply Rp. now left.
-          - right. left. apply Rp. now right. }
+          - right. apply Split. apply Rp. now left.
+          - right. apply Split. apply Rp. now right. }
         apply Rp in HF as [HF|HF]; [now apply Old|].
         destruct (mem_path F proc) eqn:E; [apply mem_path_in in E; now apply Old|].
         assert (Hn : ~ In F proc) by (intros X; apply mem_path_in in X; congruence).
-        destruct (Re F HF Hn q Hq) as [H|[H|H]]; auto.
-        left. apply fold_analyse_cached. left. rewrite Rc. exact H.
+        destruct (Re F HF Hn q Hq) as [H|[H|H]].
+        + left. apply fold_analyse_cached. left. rewrite Rc. exact H.
+        + right. now apply Split.
+        + right. right. apply in_or_app. now left.
       - intros q Hq Hex. apply fold_analyse_cached. destruct Hq as [Hq|Hq].
-        + apply Rp in Hq as [Hq|Hq]; left; rewrite Rc; apply Hd; auto.
+        + apply InP in Hq as [Hq _]. apply Rp in Hq as [Hq|Hq]; left; rewrite Rc; apply Hd; auto.
+        + apply in_app_iff in Hq as [Hq|Hq]; [right; auto|].
+          apply Rrp in Hq as [Hq _]. apply Rp in Hq as [Hq|Hq]; left; rewrite Rc; apply Hd; auto.
+      - intros q Hq. rewrite fold_analyse_plugin'. apply Rpm. now apply Hp0.
+      - intros q Hq. rewrite fold_analyse_plugin' in Hq.
+        apply (Rpcl preach); [exact Hps|intros F0 q0 HF0 Hq0; eapply pr_step; eauto|exact Hq].
+      - intros q Hq. rewrite fold_analyse_plugin' in Hq. apply fold_analyse_cached.
+        apply Rpt in Hq as [Hq|[F [HF [Hn Hq]]]]; [left; rewrite Rc; now apply Hpc|].
+        assert (Hex : file_exists q = true) by (eapply tgf_exist; eauto).
+        assert (Hqt : In q (tg F)) by (unfold tg; apply in_map_iff; exists (q, true); auto).
+        destruct (Re F HF Hn q Hqt) as [H|[H|H]].
+        + left. now rewrite Rc.
+        + left. rewrite Rc. apply Rp in H as [H|H]; apply Hd; auto.
         + right. auto.
+      - intros F HF HFp. apply InP in HF as [HF Hnr]. rewrite fold_analyse_plugin' in HFp.
+        destruct (Rh Hh F HF HFp) as [H|H]; [contradiction|].
+        intros T HT. rewrite fold_analyse_plugin'. now apply H.
     Qed.
 
     Lemma rounds_inv : forall fuel st proc to_check re st' re',
       inv st proc to_check ->
-      import_rounds fuel st proc to_check re = Some (st', re') ->
+      import_rounds true fuel st proc to_check re = Some (st', re') ->
       exists proc', inv st' proc' [].
     Proof.
       induction fuel as [|fuel IH]; intros st proc to_check re st' re' Hinv Hr; [discriminate|].
       cbn [ScanModel.import_rounds] in Hr. destruct to_check as [|t0 tc].
       - injection Hr as <- <-. exists proc. exact Hinv.
       - pose proof (round_inv st proc (t0 :: tc) re Hinv) as R. cbn zeta in R.
-        destruct (i_new (fold_left visit_file (t0 :: tc) (mk_ist st proc [] re))) as [|n0 nr] eqn:En.
-        + injection Hr as <- <-. cbn [fold_left] in R. eexists. exact R.
+        set (x := fold_left (visit_file true) (t0 :: tc) (mk_ist st proc [] re [])) in *.
+        destruct (i_new x) as [|n0 nr] eqn:En; destruct (i_rev x) as [|r0 rr] eqn:Er.
+        + injection Hr as <- <-. cbn [fold_left app filter] in R. eexists. exact R.
+        + eapply IH; [exact R|exact Hr].
+        + eapply IH; [exact R|exact Hr].
         + eapply IH; [exact R|exact Hr].
     Qed.
 
-    (** what a converged scan has analysed: exactly the files reachable from the seeds *)
-    Theorem rounds_reach_closure fuel st re st' re' :
-      (forall q, In q (ss_cached st) -> file_exists q = true) ->
-      (forall q, In q (ss_cached st) <-> In q seeds) ->
-      import_rounds fuel st [] seeds re = Some (st', re') ->
-      forall q, In q (ss_cached st') <-> reach_tg q.
-    Proof.
-      intros Hex Hseeds Hr.
-      assert (I0 : inv st [] seeds).
-      { constructor.
+    Section Final.
+      Variables (fuel : nat) (st st' : sst) (re re' : list path).
+      Hypothesis Hex : forall q, In q (ss_cached st) -> file_exists q = true.
+      Hypothesis Hseeds : forall q, In q (ss_cached st) <-> In q seeds.
+      Hypothesis HP0 : forall q, In q (ss_plugin st) <-> In q P0.
+      Hypothesis HP0c : forall q, In q P0 -> In q (ss_cached st).
+      Hypothesis Hr : import_rounds true fuel st [] seeds re = Some (st', re').
+
+      Lemma final_inv : exists proc', inv st' proc' [].
+      Proof.
+        apply (rounds_inv fuel st [] seeds re st' re'); [|exact Hr]. constructor.
         - exact Hex.
         - intros q Hq. now apply Hseeds.
         - intros q [Hq|[Hq|[]]]; apply rt_seed; [now apply Hseeds|exact Hq].
         - intros q Hq. right. now apply Hseeds.
         - intros F [].
-        - intros q [[]|Hq] _. now apply Hseeds. }
-      destruct (rounds_inv fuel st [] seeds re st' re' I0 Hr) as [proc' [He Hsd Hs Hf Hx Hd]].
-      intros q. split; [intros Hq; apply Hs; now left|].
-      intros Hq. induction Hq as [F HF|F T HF IH HT]; [now apply Hsd|].
-      destruct (Hf F IH) as [Hp|[]]. destruct (Hx F Hp T HT) as [H|[H|[]]]; [exact H|].
-      apply Hd; [now left|]. eapply tg_exist; eauto.
+        - intros q [[]|Hq] _. now apply Hseeds.
+        - intros q Hq. now apply HP0.
+        - intros q Hq. apply pr_base. now apply HP0.
+        - intros q Hq. apply HP0c. now apply HP0.
+        - intros F [].
+      Qed.
+
+      (** analysed = reachable from the seeds *)
+      Theorem rounds_reach_closure : forall q, In q (ss_cached st') <-> reach_tg q.
+      Proof.
+        destruct final_inv as [proc' [He Hsd Hs Hf Hx Hd _ _ _ _]].
+        intros q. split; [intros Hq; apply Hs; now left|].
+        intros Hq. induction Hq as [F HF|F T HF IH HT]; [now apply Hsd|].
+        destruct (Hf F IH) as [Hp|[]]. destruct (Hx F Hp T HT) as [H|[H|[]]]; [exact H|].
+        apply Hd; [now left|]. eapply tg_exist; eauto.
+      Qed.
+      (** plugin files = reachable from the plugin files through hand-on edges: sound AND complete *)
+      Theorem rounds_plugin_closure : forall q, In q (ss_plugin st') <-> preach q.
+      Proof.
+        destruct final_inv as [proc' [_ _ _ Hf _ _ Hp0 Hps Hpc Hh]].
+        intros q. split; [apply Hps|].
+        intros Hq. induction Hq as [F HF|F T HF IH HT]; [now apply Hp0|].
+        destruct (Hf F (Hpc F IH)) as [Hp|[]]. now apply (Hh F Hp IH).
+      Qed.
+    End Final.
+
+    (** ** the scan converges *)
+    Definition pending (st : sst) : nat :=
+      length (filter (fun p => negb (mem_path p (ss_cached st))) (map fst fd)).
+    Definition unmarked (st : sst) : nat :=
+      length (filter (fun p => negb (mem_path p (ss_plugin st))) (map fst fd)).
+    Lemma filter_length_le_sub {A} (f g : A -> bool) l :
+      (forall y, g y = true -> f y = true) -> (length (filter g l) <= length (filter f l))%nat.
+    Proof.
+      intros Hsub. induction l as [|z l IH]; [apply le_n|]. cbn [filter]. destruct (g z) eqn:E.
+      - rewrite (Hsub z E). cbn [length]. now apply le_n_S.
+      - destruct (f z); cbn [length]; [now apply le_S|exact IH].
+    Qed.
+    Lemma filter_length_lt {A} (f g : A -> bool) l x :
+      (forall y, g y = true -> f y = true) -> In x l -> f x = true -> g x = false ->
+      (length (filter g l) < length (filter f l))%nat.
+    Proof.
+      intros Hsub. induction l as [|y l IH]; intros Hin Hf Hg; [contradiction|].
+      cbn [filter]. destruct Hin as [->|Hin].
+      - rewrite Hf, Hg. cbn [length]. apply le_n_S. now apply filter_length_le_sub.
+      - destruct (g y) eqn:E.
+        + rewrite (Hsub y E). cbn [length]. apply -> Nat.succ_lt_mono. now apply IH.
+        + destruct (f y); cbn [length]; [apply Nat.lt_lt_succ_r|]; now apply IH.
+    Qed.
+    Lemma file_exists_key q : file_exists q = true -> In q (map fst fd).
+    Proof.
+      unfold ScanModel.file_exists, ahas. intros H. apply existsb_exists in H as [[k v] [Hin Hk]].
+      cbn [fst] in Hk. apply path_eqb_eq in Hk. subst k. apply in_map_iff. exists (q, v). auto.
+    Qed.
+    Lemma not_mem_sub (a b : list path) : (forall q, In q a -> In q b) ->
+      forall y, negb (mem_path y b) = true -> negb (mem_path y a) = true.
+    Proof.
+      intros H y Hy. apply negb_true_iff in Hy. apply negb_true_iff.
+      destruct (mem_path y a) eqn:E; [|reflexivity]. apply mem_path_in in E. apply H in E. apply mem_path_in in E. congruence.
+    Qed.
+
+    Theorem rounds_converge : forall fuel st proc to_check re,
+      (pending st + unmarked st < fuel)%nat ->
+      import_rounds true fuel st proc to_check re <> None.
+    Proof.
+      induction fuel as [|fuel IH]; intros st proc to_check re Hlt; [inversion Hlt|].
+      cbn [ScanModel.import_rounds]. destruct to_check as [|t0 tc]; [discriminate|].
+      pose proof (round_fold (t0 :: tc) st proc re) as R.
+      set (x := fold_left (visit_file true) (t0 :: tc) (mk_ist st proc [] re [])) in *.
+      destruct R as [Rc _ Rs Rf _ Rpm _ Rpt Rrp _].
+      set (st2 := fold_left (fun st p => analyse p st) (i_new x) (i_st x)).
+      assert (Cm : forall q, In q (ss_cached st) -> In q (ss_cached st2)).
+      { intros q Hq. apply fold_analyse_cached. left. now rewrite Rc. }
+      assert (Pm : forall q, In q (ss_plugin st) -> In q (ss_plugin st2)).
+      { intros q Hq. unfold st2. rewrite fold_analyse_plugin'. now apply Rpm. }
+      assert (Le1 : (pending st2 <= pending st)%nat) by (apply filter_length_le_sub; now apply not_mem_sub).
+      assert (Le2 : (unmarked st2 <= unmarked st)%nat) by (apply filter_length_le_sub; now apply not_mem_sub).
+      assert (Step : (i_new x <> [] \/ i_rev x <> []) -> (pending st2 + unmarked st2 < fuel)%nat).
+      { intros [Hn|Hn].
+        - destruct (i_new x) as [|n0 nr] eqn:En; [contradiction|].
+          assert (Hn0 : In n0 (n0 :: nr)) by now left.
+          destruct (Rs n0 Hn0) as [F [_ HF]]. apply tg_exist in HF. pose proof (Rf n0 Hn0) as Hfresh.
+          assert (Lt : (pending st2 < pending st)%nat).
+          { unfold pending. eapply filter_length_lt with (x := n0).
+            - now apply not_mem_sub.
+            - now apply file_exists_key.
+            - apply negb_true_iff. destruct (mem_path n0 (ss_cached st)) eqn:E; [apply mem_path_in in E; contradiction|reflexivity].
+            - apply negb_false_iff. apply mem_path_in. unfold st2. apply fold_analyse_cached. right. split; [now left|exact HF]. }
+          apply Nat.lt_le_trans with (m := (pending st + unmarked st)%nat); [apply Nat.add_lt_le_mono; assumption|].
+          now apply Nat.lt_succ_r.
+        - destruct (i_rev x) as [|r0 rr] eqn:Er; [contradiction|].
+          assert (Hr0 : In r0 (r0 :: rr)) by now left.
+          destruct (Rrp r0 Hr0) as [_ [Hp1 Hp2]].
+          assert (Hex0 : file_exists r0 = true).
+          { apply Rpt in Hp1 as [Hp1|[F [_ [_ Hq]]]]; [contradiction|]. eapply tgf_exist; eauto. }
+          assert (Lt : (unmarked st2 < unmarked st)%nat).
+          { unfold unmarked. eapply filter_length_lt with (x := r0).
+            - now apply not_mem_sub.
+            - now apply file_exists_key.
+            - apply negb_true_iff. destruct (mem_path r0 (ss_plugin st)) eqn:E; [apply mem_path_in in E; contradiction|reflexivity].
+            - apply negb_false_iff. apply mem_path_in. unfold st2. now rewrite fold_analyse_plugin'. }
+          apply Nat.lt_le_trans with (m := (pending st + unmarked st)%nat); [apply Nat.add_le_lt_mono; assumption|].
+          now apply Nat.lt_succ_r. }
+      destruct (i_new x) as [|n0 nr] eqn:En; destruct (i_rev x) as [|r0 rr] eqn:Er; [discriminate| | |];
+        apply IH; apply Step; [right|left|left]; discriminate.
     Qed.
   End Rounds.
 
@@ -344,26 +567,6 @@ Section ScanProofs.
     destruct He as [He|[]]. injection He as <- _. eapply resolve_edge_exists; [apply idx_cache_on_disk|exact E].
   Qed.
 
-  (** ** the theorem: a converged import scan has analysed exactly the seeds and everything
-      reachable from them through resolved star imports, explicit imports and
-      pytest_plugins entries — on any tree, any import graph (cycles, diamonds, chains) *)
-  Theorem import_scan_reaches_closure st st' :
-    (forall q, In q (ss_cached st) -> file_exists q = true) ->
-    (forall q, In q (ss_cached st) -> In q (seed_files fd sp dists pths st)) ->
-    import_scan_opt fd sp dists pths st = Some st' ->
-    forall q, In q (ss_cached st') <-> reach fd sp dists pths (seed_files fd sp dists pths st) q.
-  Proof.
-    intros Hex Hseeds Hs q. unfold import_scan_opt in Hs.
-    destruct (import_rounds _ st [] (seed_files fd sp dists pths st) []) as [[st'' re]|] eqn:E; [|discriminate].
-    injection Hs as <-.
-    pose proof (rounds_reach_closure succ (fun st0 F _ => targets_indep st0 F) succ_exists
-                  (seed_files fd sp dists pths st) (S (S (length fd))) st [] st'' re Hex) as R.
-    assert (Hss : forall q0, In q0 (ss_cached st) <-> In q0 (seed_files fd sp dists pths st)).
-    { intros q0. split; [apply Hseeds|]. unfold seed_files. intros H. apply filter_In in H. tauto. }
-    specialize (R Hss E q). rewrite R. clear.
-    split; intros H; induction H as [F HF|F T HF IH HT]; [now apply reach_seed|eapply reach_step; eauto|now apply rt_seed|eapply rt_step; eauto].
-  Qed.
-
   Lemma targets_indep_full st F : targets st F = targets (all_cached fd) F.
   Proof.
     unfold ScanModel.targets. destruct (alookup F fd) as [v|]; [|reflexivity].
@@ -371,46 +574,71 @@ Section ScanProofs.
     induction (f_edges v) as [|e es IH]; [reflexivity|]. cbn [flat_map]. rewrite IH. f_equal.
     now rewrite (resolve_edge_indep (idx_of fd st) (idx_of fd (all_cached fd)) _ F e (idx_cache_on_disk _) (idx_cache_on_disk _)).
   Qed.
-
-  (** plugin marks only travel along star imports / pytest_plugins entries out of plugin files *)
-  Inductive plugin_reach (P0 : list path) : path -> Prop :=
-  | pr_base F : In F P0 -> plugin_reach P0 F
-  | pr_step F T : plugin_reach P0 F -> In (T, true) (targets (all_cached fd) F) -> plugin_reach P0 T.
-
-  Lemma fold_visit_plugin P0 l : forall x,
-    (forall q, In q (ss_plugin (i_st x)) -> plugin_reach P0 q) ->
-    forall q, In q (ss_plugin (i_st (fold_left visit_file l x))) -> plugin_reach P0 q.
+  Lemma targets_exist F q b : In (q, b) (targets (all_cached fd) F) -> file_exists q = true.
   Proof.
-    induction l as [|F l IH]; intros x Hx; [exact Hx|]. cbn [fold_left]. apply IH.
-    rewrite visit_file_unfold. destruct (mem_path F (i_proc x)); [exact Hx|].
-    intros q Hq.
-    pose proof (visit_targets_spec (mem_path F (ss_plugin (i_st x))) (targets (i_st x) F)
-                  (mk_ist (i_st x) (F :: i_proc x) (i_new x) (i_re x))) as [_ [_ [_ V4]]].
-    cbn zeta in V4. cbn [i_st] in V4. apply V4 in Hq as [Hq|[Hb Hq]]; [now apply Hx|].
-    apply mem_path_in in Hb. rewrite targets_indep_full in Hq. eapply pr_step; [apply Hx; exact Hb|exact Hq].
+    intros H. apply succ_exists with (F := F). unfold ImportsSpec.succ. apply in_map_iff. exists (q, b). auto.
   Qed.
-  Lemma fold_analyse_plugin l : forall st, ss_plugin (fold_left (fun st p => analyse p st) l st) = ss_plugin st.
-  Proof. induction l as [|p l IH]; intros st; [reflexivity|]. cbn [fold_left]. now rewrite IH, analyse_plugin. Qed.
 
-  Theorem import_scan_plugin_sound st st' :
-    import_scan_opt fd sp dists pths st = Some st' ->
-    forall q, In q (ss_plugin st') -> plugin_reach (ss_plugin st) q.
+  Inductive plugin_reach (P0 : list path) : path -> Prop :=
+  | plr_base F : In F P0 -> plugin_reach P0 F
+  | plr_step F T : plugin_reach P0 F -> In (T, true) (targets (all_cached fd) F) -> plugin_reach P0 T.
+
+  Section Top.
+    Variables st st' : sst.
+    Hypothesis Hex : forall q, In q (ss_cached st) -> file_exists q = true.
+    Hypothesis Hseeds : forall q, In q (ss_cached st) -> In q (seed_files fd sp dists pths st).
+    Hypothesis Hplug : forall q, In q (ss_plugin st) -> In q (ss_cached st).
+    Hypothesis Hs : import_scan_opt fd sp dists pths st = Some st'.
+
+    Lemma top_rounds : exists re, import_rounds true (S (S (length fd + length fd))) st [] (seed_files fd sp dists pths st) [] = Some (st', re).
+    Proof.
+      unfold import_scan_opt, import_scan_with in Hs.
+      destruct (import_rounds true _ st [] (seed_files fd sp dists pths st) []) as [[st'' re]|] eqn:E; [|discriminate].
+      injection Hs as <-. eauto.
+    Qed.
+    Lemma Hss : forall q0, In q0 (ss_cached st) <-> In q0 (seed_files fd sp dists pths st).
+    Proof. intros q0. split; [apply Hseeds|]. unfold seed_files. intros H. apply filter_In in H. tauto. Qed.
+
+    (** ** the theorem: a converged import scan has analysed exactly the seeds and everything
+        reachable from them through resolved star imports, explicit imports and
+        pytest_plugins entries — on any tree, any import graph (cycles, diamonds, chains) *)
+    Theorem import_scan_reaches_closure :
+      forall q, In q (ss_cached st') <-> reach fd sp dists pths (seed_files fd sp dists pths st) q.
+    Proof.
+      destruct top_rounds as [re E]. intros q.
+      rewrite (rounds_reach_closure (targets (all_cached fd)) targets_indep_full targets_exist
+                 (seed_files fd sp dists pths st) (ss_plugin st) _ st st' [] re Hex Hss (fun q0 => iff_refl _) Hplug E q).
+      split; intros H; induction H as [F HF|F T HF IH HT];
+        [now apply reach_seed|eapply reach_step; eauto|now apply rt_seed|eapply rt_step; eauto].
+    Qed.
+
+    (** ... and has marked as plugin files exactly the plugin files it started from and what
+        is reachable from them through star imports and pytest_plugins entries (since fix
+        92543e7 in whatever order the files of a round are visited) *)
+    Theorem import_scan_plugin_closure :
+      forall q, In q (ss_plugin st') <-> plugin_reach (ss_plugin st) q.
+    Proof.
+      destruct top_rounds as [re E]. intros q.
+      rewrite (rounds_plugin_closure (targets (all_cached fd)) targets_indep_full targets_exist
+                 (seed_files fd sp dists pths st) (ss_plugin st) _ st st' [] re Hex Hss (fun q0 => iff_refl _) Hplug E q).
+      split; intros H; induction H as [F HF|F T HF IH HT];
+        [now apply plr_base|eapply plr_step; eauto|now apply pr_base|eapply pr_step; eauto].
+    Qed.
+  End Top.
+
+  (** the scan always converges within the model's fuel *)
+  Theorem import_scan_converges st : import_scan_opt fd sp dists pths st <> None.
   Proof.
-    unfold import_scan_opt.
-    destruct (import_rounds _ st [] (seed_files fd sp dists pths st) []) as [[st'' re]|] eqn:E; [|discriminate].
-    intros H. injection H as <-. revert E.
-    generalize (seed_files fd sp dists pths st) as tc. generalize (@nil path) at 2 as re0. generalize (@nil path) as proc.
-    assert (G : forall fuel st0 proc tc re0,
-               (forall q, In q (ss_plugin st0) -> plugin_reach (ss_plugin st) q) ->
-               import_rounds fuel st0 proc tc re0 = Some (st'', re) ->
-               forall q, In q (ss_plugin st'') -> plugin_reach (ss_plugin st) q).
-    { induction fuel as [|fuel IH]; intros st0 proc tc re0 H0 Hr; [discriminate|].
-      cbn [ScanModel.import_rounds] in Hr. destruct tc as [|t0 tc]; [injection Hr as <- _; exact H0|].
-      pose proof (fold_visit_plugin (ss_plugin st) (t0 :: tc) (mk_ist st0 proc [] re0) H0) as Hf.
-      destruct (i_new (fold_left visit_file (t0 :: tc) (mk_ist st0 proc [] re0))) as [|n0 nr] eqn:En.
-      - injection Hr as <- _. exact Hf.
-      - eapply IH; [|exact Hr]. intros q Hq. rewrite fold_analyse_plugin in Hq. now apply Hf. }
-    intros proc re0 tc E. eapply G; [|exact E]. intros q Hq. now apply pr_base.
+    unfold import_scan_opt, import_scan_with.
+    pose proof (rounds_converge (targets (all_cached fd)) targets_indep_full targets_exist
+                  (S (S (length fd + length fd))) st [] (seed_files fd sp dists pths st) []) as R.
+    destruct (import_rounds true _ st [] _ []) as [[st' re]|]; [discriminate|].
+    exfalso. apply R; [|reflexivity].
+    assert (B : forall f : path -> bool, (length (filter f (map fst fd)) <= length fd)%nat).
+    { intros f. rewrite <- (map_length fst fd). generalize (map fst fd) as l.
+      induction l as [|y l IHl]; [apply le_n|]. cbn [filter]. destruct (f y); cbn [length]; [now apply le_n_S|now apply le_S]. }
+    unfold pending, unmarked.
+    pose proof (B (fun p => negb (mem_path p (ss_cached st)))). pose proof (B (fun p => negb (mem_path p (ss_plugin st)))). lia.
   Qed.
 
   (** ** classification: third-party by where the source lives *)
